@@ -1,11 +1,14 @@
 // Command transp runs the scenarios of spec/ClientFile.tla through
-//   p9.Client <-> recording proxy (forces the negotiated version) <-> p9.Server <-> recording backend
+//
+//	p9.Client <-> recording proxy (forces the negotiated version) <-> p9.Server <-> recording backend
+//
 // and compares
-//   C03: the backend call (operation, File, arguments after the documented rewriting) and the caller's
-//        return values / errno with the scenario;
-//   C01: every frame captured on the wire, decoded with the reference codec interpreting Wire.tla's
-//        layout table, with the values the client was given / the backend returned (positionally, in
-//        Wire.tla's field order), its size field, and byte-exact re-encoding.
+//
+//	C03: the backend call (operation, File, arguments after the documented rewriting) and the caller's
+//	     return values / errno with the scenario;
+//	C01: every frame captured on the wire, decoded with the reference codec interpreting Wire.tla's
+//	     layout table, with the values the client was given / the backend returned (positionally, in
+//	     Wire.tla's field order), its size field, and byte-exact re-encoding.
 package main
 
 import (
@@ -20,6 +23,7 @@ import (
 	"strings"
 	"sync"
 	"syscall"
+	"time"
 
 	"github.com/hugelgupf/p9/linux"
 	"github.com/hugelgupf/p9/p9"
@@ -43,11 +47,13 @@ type scen struct {
 }
 
 type out struct {
-	Cases    int            `json:"cases"`
-	Frames   int            `json:"frames"`
+	Cases    int                 `json:"cases"`
+	Frames   int                 `json:"frames"`
 	Findings map[string][]string `json:"findings"` // by property
-	Samples  []any          `json:"samples"`
+	Samples  []any               `json:"samples"`
 }
+
+var timeouts int
 
 func (o *out) add(prop, f string) {
 	if len(o.Findings[prop]) < 25 {
@@ -61,14 +67,15 @@ type captured struct {
 }
 
 type world struct {
-	t      *wirecodec.Table
-	auto   *puppet.Auto
-	cl     *p9.Client
-	mu     sync.Mutex
-	frames []captured
-	fidOf  map[p9.File]uint64 // client file -> fid (from the Twalk that made it)
-	fileOf map[p9.File]int    // client file -> backend file id
-	msize  uint64
+	t       *wirecodec.Table
+	auto    *puppet.Auto
+	cl      *p9.Client
+	mu      sync.Mutex
+	frames  []captured
+	fidOf   map[p9.File]uint64 // client file -> fid (from the Twalk that made it)
+	fileOf  map[p9.File]int    // client file -> backend file id
+	msize   uint64
+	closers []func()
 }
 
 // flatten returns the numeric leaves of a struct (bools as 0/1) in field order and its strings.
@@ -198,11 +205,28 @@ func (w *world) proxy(from io.Reader, to io.Writer, toServer bool, version int) 
 	}
 }
 
-func newWorld(t *wirecodec.Table, version int) (*world, p9.File, error) {
+func newWorld(t *wirecodec.Table, version int, sock bool) (*world, p9.File, error) {
 	w := &world{t: t, auto: puppet.NewAuto(), fidOf: map[p9.File]uint64{}, fileOf: map[p9.File]int{}}
 	srv := p9.NewServer(&puppet.Attacher{C: w.auto.C})
-	c1, p1 := peer.NewDuplexPair() // client <-> proxy
-	p2, s1 := peer.NewDuplexPair() // proxy <-> server
+	var c1, p1, p2, s1 io.ReadWriteCloser
+	if sock {
+		// real sockets on both legs, every frame arriving in pieces: client and server receive through the
+		// vectored socket path (vecnet) and see partial reads
+		d1, err := peer.NewDribble()
+		if err != nil {
+			return nil, nil, err
+		}
+		d2, err := peer.NewDribble()
+		if err != nil {
+			d1.Close()
+			return nil, nil, err
+		}
+		c1, p1, p2, s1 = d1.A, d1.B, d2.A, d2.B
+		w.closers = append(w.closers, d1.Close, d2.Close)
+	} else {
+		c1, p1 = peer.NewDuplexPair() // client <-> proxy
+		p2, s1 = peer.NewDuplexPair() // proxy <-> server
+	}
 	go srv.Handle(s1, s1)
 	go w.proxy(p1, p2, true, version)
 	go w.proxy(p2, p1, false, version)
@@ -501,11 +525,30 @@ type call struct {
 func runScenario(t *wirecodec.Table, sc *scen, o *out) {
 	o.Cases++
 	desc := fmt.Sprintf("%s at version %d [%s %d %s %s %s]", sc.M, sc.V, sc.Kind, sc.Idx, sc.Class, sc.Shape, sc.Errno)
-	w, root, err := newWorld(t, sc.V)
+	sock := false
+	switch sc.M {
+	case "ReadAt", "WriteAt", "Readdir", "GetXattr", "SetXattr", "Walk", "WalkGetAttr", "Readlink", "Symlink", "ListXattrs":
+		sock = (sc.V+sc.Idx)%2 == 1
+	default:
+		sock = o.Cases%8 == 0
+	}
+	if sock {
+		desc += " over dribbling unix sockets"
+	}
+	w, root, err := newWorld(t, sc.V, sock)
 	if err != nil {
 		o.add("C03", desc+": setup: "+err.Error())
+		if sock {
+			// the same setup succeeds over in-memory pipes: the frames were not reconstructed from the socket
+			o.add("C01", desc+": setup: "+err.Error())
+		}
 		return
 	}
+	defer func() {
+		for _, c := range w.closers {
+			c()
+		}
+	}()
 	defer w.auto.Stop()
 	defer w.cl.Close()
 	cls := func(i int) string { // class of argument i (1-based)
@@ -662,190 +705,190 @@ func runScenario(t *wirecodec.Table, sc *scen, o *out) {
 	}
 	var followNames []string
 	invoke := func() {
-	switch sc.M {
-	case "Walk", "WalkGetAttr":
-		names := []string{"n1"}
-		switch cls(1) {
-		case "empty":
-			names = []string{}
-		case "one":
-			names = []string{"a"}
-		case "two":
-			names = []string{"a", "b"}
-		case "five":
-			names = []string{"a", "b", "c\xff", "d", "e"}
-		}
-		argStrs = names
-		if sc.M == "Walk" {
-			q, f, e := target.Walk(names)
+		switch sc.M {
+		case "Walk", "WalkGetAttr":
+			names := []string{"n1"}
+			switch cls(1) {
+			case "empty":
+				names = []string{}
+			case "one":
+				names = []string{"a"}
+			case "two":
+				names = []string{"a", "b"}
+			case "five":
+				names = []string{"a", "b", "c\xff", "d", "e"}
+			}
+			argStrs = names
+			if sc.M == "Walk" {
+				q, f, e := target.Walk(names)
+				cerr = e
+				if e == nil {
+					ret = append(ret, q)
+					_ = f
+				}
+			} else {
+				q, f, m, a, e := target.WalkGetAttr(names)
+				cerr = e
+				if e == nil {
+					ret = append(ret, q, m, a)
+					_ = f
+				}
+			}
+			followNames = names
+		case "StatFS":
+			s, e := target.StatFS()
 			cerr = e
-			if e == nil {
-				ret = append(ret, q)
-				_ = f
-			}
-		} else {
-			q, f, m, a, e := target.WalkGetAttr(names)
+			ret = append(ret, s)
+		case "GetAttr":
+			m := attrMaskVal(cls(1), sc.Idx+len(sc.Class))
+			n, _ := flat(m)
+			argNums = n
+			q, v, a, e := target.GetAttr(m)
 			cerr = e
-			if e == nil {
-				ret = append(ret, q, m, a)
-				_ = f
+			ret = append(ret, q, v, a)
+		case "SetAttr":
+			m := setAttrMaskVal(cls(1), len(sc.Class))
+			var a p9.SetAttr
+			fillStruct(&a, map[string]string{"fp": "fp", "zero": "zero", "max": "max"}[cls(2)])
+			n1, _ := flat(m)
+			a2 := a
+			a2.Permissions &= 0o7777
+			n2, _ := flat(a2)
+			argNums = append(n1, n2...)
+			cerr = target.SetAttr(m, a)
+		case "Open":
+			fl := flagsVal(cls(1))
+			argNums = []uint64{uint64(fl)}
+			q, u, e := target.Open(fl)
+			cerr = e
+			ret = append(ret, q, u)
+		case "ReadAt":
+			n := map[string]int{"fp": 10, "zero": 0, "one": 1}[cls(1)]
+			off := int64(u64Val(cls(2), 2))
+			argNums = []uint64{uint64(off), uint64(n)}
+			p := make([]byte, n)
+			k, e := target.ReadAt(p, off)
+			cerr = e
+			ret = append(ret, k, string(p[:k]))
+		case "WriteAt":
+			data := map[string][]byte{"fp": []byte("hello-data"), "empty": {}, "one": {0x80}}[cls(1)]
+			if cls(1) == "allbytes" {
+				data = make([]byte, 256)
+				for i := range data {
+					data[i] = byte(i)
+				}
 			}
-		}
-		followNames = names
-	case "StatFS":
-		s, e := target.StatFS()
-		cerr = e
-		ret = append(ret, s)
-	case "GetAttr":
-		m := attrMaskVal(cls(1), sc.Idx+len(sc.Class))
-		n, _ := flat(m)
-		argNums = n
-		q, v, a, e := target.GetAttr(m)
-		cerr = e
-		ret = append(ret, q, v, a)
-	case "SetAttr":
-		m := setAttrMaskVal(cls(1), len(sc.Class))
-		var a p9.SetAttr
-		fillStruct(&a, map[string]string{"fp": "fp", "zero": "zero", "max": "max"}[cls(2)])
-		n1, _ := flat(m)
-		a2 := a
-		a2.Permissions &= 0o7777
-		n2, _ := flat(a2)
-		argNums = append(n1, n2...)
-		cerr = target.SetAttr(m, a)
-	case "Open":
-		fl := flagsVal(cls(1))
-		argNums = []uint64{uint64(fl)}
-		q, u, e := target.Open(fl)
-		cerr = e
-		ret = append(ret, q, u)
-	case "ReadAt":
-		n := map[string]int{"fp": 10, "zero": 0, "one": 1}[cls(1)]
-		off := int64(u64Val(cls(2), 2))
-		argNums = []uint64{uint64(off), uint64(n)}
-		p := make([]byte, n)
-		k, e := target.ReadAt(p, off)
-		cerr = e
-		ret = append(ret, k, string(p[:k]))
-	case "WriteAt":
-		data := map[string][]byte{"fp": []byte("hello-data"), "empty": {}, "one": {0x80}}[cls(1)]
-		if cls(1) == "allbytes" {
-			data = make([]byte, 256)
-			for i := range data {
-				data[i] = byte(i)
+			off := int64(u64Val(cls(2), 2))
+			argNums = []uint64{uint64(off)}
+			argStrs = []string{string(data)}
+			k, e := target.WriteAt(data, off)
+			cerr = e
+			ret = append(ret, k)
+		case "FSync":
+			cerr = target.FSync()
+		case "Lock":
+			pid := map[string]int{"fp": 4242, "zero": 0, "one": 1, "msb": -2147483648, "max": 2147483647}[cls(1)]
+			lt := p9.LockType(u32Val(cls(2), 2) & 0xFF)
+			lf := p9.LockFlags(u32Val(cls(3), 3))
+			st, ln := u64Val(cls(4), 4), u64Val(cls(5), 5)
+			cid := nameVal(cls(6), 6)
+			argNums = []uint64{uint64(lt), uint64(lf), st, ln, uint64(uint32(int32(pid)))}
+			argStrs = []string{cid}
+			s, e := target.Lock(pid, lt, lf, st, ln, cid)
+			cerr = e
+			ret = append(ret, s)
+		case "Create":
+			useIDs(4, 5)
+			name, fl, pm := nameVal(cls(1), 1), flagsVal(cls(2)), permVal(cls(3))
+			argStrs = []string{name}
+			argNums = []uint64{uint64(fl), uint64(pm & 0o7777), expGID}
+			if sc.UID {
+				argNums = append(argNums, expUID)
 			}
+			_, q, u, e := target.Create(name, fl, pm, uid, gid)
+			cerr = e
+			ret = append(ret, q, u)
+		case "Mkdir":
+			useIDs(3, 4)
+			name, pm := nameVal(cls(1), 1), permVal(cls(2))
+			argStrs = []string{name}
+			argNums = []uint64{uint64(pm & 0o7777), expGID}
+			if sc.UID {
+				argNums = append(argNums, expUID)
+			}
+			q, e := target.Mkdir(name, pm, uid, gid)
+			cerr = e
+			ret = append(ret, q)
+		case "Symlink":
+			useIDs(3, 4)
+			tg, name := nameVal(cls(1), 1)+"/../t", nameVal(cls(2), 2)
+			argStrs = []string{name, tg}
+			argNums = []uint64{expGID}
+			if sc.UID {
+				argNums = append(argNums, expUID)
+			}
+			q, e := target.Symlink(tg, name, uid, gid)
+			cerr = e
+			ret = append(ret, q)
+		case "Mknod":
+			useIDs(5, 6)
+			name, md := nameVal(cls(1), 1), modeVal(cls(2))
+			mj, mn := u32Val(cls(3), 3), u32Val(cls(4), 4)
+			argStrs = []string{name}
+			argNums = []uint64{uint64(md), uint64(mj), uint64(mn), expGID}
+			if sc.UID {
+				argNums = append(argNums, expUID)
+			}
+			q, e := target.Mknod(name, md, mj, mn, uid, gid)
+			cerr = e
+			ret = append(ret, q)
+		case "Link":
+			name := nameVal(cls(1), 1)
+			argStrs = []string{name}
+			cerr = target.Link(other, name)
+		case "Rename":
+			name := nameVal(cls(1), 1)
+			argStrs = []string{name}
+			cerr = target.Rename(other, name)
+		case "RenameAt":
+			on, nn := nameVal(cls(1), 1), nameVal(cls(2), 2)
+			argStrs = []string{on, nn}
+			cerr = target.RenameAt(on, other, nn)
+		case "UnlinkAt":
+			name, fl := nameVal(cls(1), 1), u32Val(cls(2), 2)
+			argStrs = []string{name}
+			argNums = []uint64{uint64(fl)}
+			cerr = target.UnlinkAt(name, fl)
+		case "Readdir":
+			off, cnt := u64Val(cls(1), 1), u32Val(cls(2), 2)
+			argNums = []uint64{off, uint64(cnt)}
+			d, e := target.Readdir(off, cnt)
+			cerr = e
+			ret = append(ret, d)
+		case "Readlink":
+			s, e := target.Readlink()
+			cerr = e
+			ret = append(ret, s)
+		case "GetXattr":
+			name := nameVal(cls(1), 1)
+			argStrs = []string{name}
+			d, e := target.GetXattr(name)
+			cerr = e
+			ret = append(ret, string(d))
+		case "ListXattrs":
+			argStrs = []string{""}
+			l, e := target.ListXattrs()
+			cerr = e
+			ret = append(ret, l)
+		case "Remove":
+			cerr = target.(interface{ Remove() error }).Remove()
+		case "Close":
+			cerr = target.Close()
+		case "SetXattr":
+			cerr = target.SetXattr("user.x", []byte("v"), 0)
+		case "RemoveXattr":
+			cerr = target.RemoveXattr("user.x")
 		}
-		off := int64(u64Val(cls(2), 2))
-		argNums = []uint64{uint64(off)}
-		argStrs = []string{string(data)}
-		k, e := target.WriteAt(data, off)
-		cerr = e
-		ret = append(ret, k)
-	case "FSync":
-		cerr = target.FSync()
-	case "Lock":
-		pid := map[string]int{"fp": 4242, "zero": 0, "one": 1, "msb": -2147483648, "max": 2147483647}[cls(1)]
-		lt := p9.LockType(u32Val(cls(2), 2) & 0xFF)
-		lf := p9.LockFlags(u32Val(cls(3), 3))
-		st, ln := u64Val(cls(4), 4), u64Val(cls(5), 5)
-		cid := nameVal(cls(6), 6)
-		argNums = []uint64{uint64(lt), uint64(lf), st, ln, uint64(uint32(int32(pid)))}
-		argStrs = []string{cid}
-		s, e := target.Lock(pid, lt, lf, st, ln, cid)
-		cerr = e
-		ret = append(ret, s)
-	case "Create":
-		useIDs(4, 5)
-		name, fl, pm := nameVal(cls(1), 1), flagsVal(cls(2)), permVal(cls(3))
-		argStrs = []string{name}
-		argNums = []uint64{uint64(fl), uint64(pm & 0o7777), expGID}
-		if sc.UID {
-			argNums = append(argNums, expUID)
-		}
-		_, q, u, e := target.Create(name, fl, pm, uid, gid)
-		cerr = e
-		ret = append(ret, q, u)
-	case "Mkdir":
-		useIDs(3, 4)
-		name, pm := nameVal(cls(1), 1), permVal(cls(2))
-		argStrs = []string{name}
-		argNums = []uint64{uint64(pm & 0o7777), expGID}
-		if sc.UID {
-			argNums = append(argNums, expUID)
-		}
-		q, e := target.Mkdir(name, pm, uid, gid)
-		cerr = e
-		ret = append(ret, q)
-	case "Symlink":
-		useIDs(3, 4)
-		tg, name := nameVal(cls(1), 1)+"/../t", nameVal(cls(2), 2)
-		argStrs = []string{name, tg}
-		argNums = []uint64{expGID}
-		if sc.UID {
-			argNums = append(argNums, expUID)
-		}
-		q, e := target.Symlink(tg, name, uid, gid)
-		cerr = e
-		ret = append(ret, q)
-	case "Mknod":
-		useIDs(5, 6)
-		name, md := nameVal(cls(1), 1), modeVal(cls(2))
-		mj, mn := u32Val(cls(3), 3), u32Val(cls(4), 4)
-		argStrs = []string{name}
-		argNums = []uint64{uint64(md), uint64(mj), uint64(mn), expGID}
-		if sc.UID {
-			argNums = append(argNums, expUID)
-		}
-		q, e := target.Mknod(name, md, mj, mn, uid, gid)
-		cerr = e
-		ret = append(ret, q)
-	case "Link":
-		name := nameVal(cls(1), 1)
-		argStrs = []string{name}
-		cerr = target.Link(other, name)
-	case "Rename":
-		name := nameVal(cls(1), 1)
-		argStrs = []string{name}
-		cerr = target.Rename(other, name)
-	case "RenameAt":
-		on, nn := nameVal(cls(1), 1), nameVal(cls(2), 2)
-		argStrs = []string{on, nn}
-		cerr = target.RenameAt(on, other, nn)
-	case "UnlinkAt":
-		name, fl := nameVal(cls(1), 1), u32Val(cls(2), 2)
-		argStrs = []string{name}
-		argNums = []uint64{uint64(fl)}
-		cerr = target.UnlinkAt(name, fl)
-	case "Readdir":
-		off, cnt := u64Val(cls(1), 1), u32Val(cls(2), 2)
-		argNums = []uint64{off, uint64(cnt)}
-		d, e := target.Readdir(off, cnt)
-		cerr = e
-		ret = append(ret, d)
-	case "Readlink":
-		s, e := target.Readlink()
-		cerr = e
-		ret = append(ret, s)
-	case "GetXattr":
-		name := nameVal(cls(1), 1)
-		argStrs = []string{name}
-		d, e := target.GetXattr(name)
-		cerr = e
-		ret = append(ret, string(d))
-	case "ListXattrs":
-		argStrs = []string{""}
-		l, e := target.ListXattrs()
-		cerr = e
-		ret = append(ret, l)
-	case "Remove":
-		cerr = target.(interface{ Remove() error }).Remove()
-	case "Close":
-		cerr = target.Close()
-	case "SetXattr":
-		cerr = target.SetXattr("user.x", []byte("v"), 0)
-	case "RemoveXattr":
-		cerr = target.RemoveXattr("user.x")
-	}
 	}
 	invoke()
 	w.mu.Lock()
@@ -1325,8 +1368,35 @@ func main() {
 					o.add("C03", fmt.Sprintf("%s at version %d [%s %d %s]: driver panic: %v", s.M, s.V, s.Kind, s.Idx, s.Class, r))
 				}
 			}()
-			runScenario(t, &s, o)
+			// under a watchdog: an operation that never returns is a finding, not a hang of the check
+			lo := &out{Cases: o.Cases, Frames: o.Frames, Findings: map[string][]string{}, Samples: o.Samples}
+			done := make(chan any, 1)
+			go func() {
+				defer func() { done <- recover() }()
+				runScenario(t, &s, lo)
+			}()
+			select {
+			case r := <-done:
+				if r != nil {
+					panic(r)
+				}
+				o.Cases, o.Frames, o.Samples = lo.Cases, lo.Frames, lo.Samples
+				for p, fs := range lo.Findings {
+					for _, f := range fs {
+						o.add(p, f)
+					}
+				}
+			case <-time.After(10 * time.Second):
+				timeouts++
+				o.Cases++
+				for _, p := range []string{"C01", "C03"} {
+					o.add(p, fmt.Sprintf("%s at version %d [%s %d %s]: the operation did not return within 10 s", s.M, s.V, s.Kind, s.Idx, s.Class))
+				}
+			}
 		}()
+		if timeouts >= 3 {
+			break
+		}
 	}
 	b, _ := json.Marshal(o)
 	if *outp == "" {
